@@ -139,9 +139,17 @@ const refMaxMessage = 100 * 1024 * 1024
 type streamRef struct {
 	OK       bool          // trailer must say OK
 	Code     int32         // when !OK: 0 = any non-OK code, else exactly this one
+	Msg      string        // when Code != 0: the handler's status message
 	Details  []*anypb.Any  // when Code != 0
-	Data     []*gt.Message // when OK: the data frames
+	Data     []*gt.Message // the data frames the handler sends before it returns
 	Messages int           // well-formed request messages before the end / the fault
+}
+
+func refStatusMsg(m *gt.Message) string {
+	if len(m.Payload) == 0 {
+		return "fail"
+	}
+	return "fail: " + string(m.Payload)
 }
 
 func refStream(kind string, body []byte) streamRef {
@@ -167,8 +175,24 @@ func refStream(kind string, body []byte) streamRef {
 		msgs = append(msgs, m)
 		rest = rest[4+sz:]
 		if m.Code != 0 && kind != "SS" {
-			// the handler stops at the first message asking for an error
-			return streamRef{Code: m.Code, Details: m.ErrorDetails, Messages: len(msgs)}
+			// the handler stops at the first message asking for an error; with
+			// Count > 0 it first answers with what it has received
+			out := streamRef{Code: m.Code, Msg: refStatusMsg(m), Details: m.ErrorDetails, Messages: len(msgs)}
+			if m.Count > 0 {
+				if kind == "CS" {
+					sum := &gt.Message{}
+					for _, x := range msgs[:len(msgs)-1] {
+						sum.Count++
+						sum.Payload = append(sum.Payload, x.Payload...)
+					}
+					out.Data = []*gt.Message{sum}
+				} else {
+					for _, x := range msgs {
+						out.Data = append(out.Data, &gt.Message{Payload: x.Payload, Count: x.Count + 1})
+					}
+				}
+			}
+			return out
 		}
 	}
 	switch kind {
@@ -178,12 +202,12 @@ func refStream(kind string, body []byte) streamRef {
 			return streamRef{Messages: len(msgs)}
 		}
 		m := msgs[0]
-		if m.Code != 0 {
-			return streamRef{Code: m.Code, Details: m.ErrorDetails, Messages: 1}
-		}
 		out := streamRef{OK: true, Messages: 1}
 		for i := int32(0); i < m.Count && i < 8; i++ {
 			out.Data = append(out.Data, &gt.Message{Payload: m.Payload, Count: i})
+		}
+		if m.Code != 0 {
+			out.OK, out.Code, out.Msg, out.Details = false, m.Code, refStatusMsg(m), m.ErrorDetails
 		}
 		return out
 	case "CS":
@@ -580,37 +604,47 @@ func checkStream(res *result, o *observation, kind string, hdr []hv, body []byte
 		res.add("stream-http-status", fmt.Sprintf("got=%d", o.Status), "streaming reply with a status other than 200: "+o.short())
 	}
 	tr := rep.Trailer
-	if tr.Code != 0 && trailerUnencodable(hdr) {
-		// the handler's trailer cannot be carried: any non-OK status is right
-		// (the handler's own outcome, checked below, stays acceptable too)
-		res.Notes = append(res.Notes, "trailer-unencodable-reported-as-error")
+	// the data frames are what the handler sent, whatever the final status
+	dataOK := func() bool {
+		if len(rep.Data) != len(ref.Data) {
+			res.add("stream-data", fmt.Sprintf("want=%d,got=%d", len(ref.Data), len(rep.Data)), "number of data frames differs from the number of messages the handler sent: "+o.short())
+			return false
+		}
+		for i, d := range rep.Data {
+			got := new(gt.Message)
+			if err := proto.Unmarshal(d, got); err != nil || !proto.Equal(got, ref.Data[i]) {
+				res.add("stream-data", fmt.Sprintf("frame=%d", i), fmt.Sprintf("data frame %d is not the message the handler sent: %s", i, o.short()))
+				return false
+			}
+		}
+		return true
+	}
+	// The handler's outcome cannot be carried by HttpTrailer when a trailer
+	// metadata value or the status message is not valid UTF-8 (proto3 string
+	// fields): then any non-OK status is a correct answer.
+	uncarriable := trailerUnencodable(hdr) || (ref.Code != 0 && !utf8.ValidString(ref.Msg))
+	if tr.Code != 0 && uncarriable {
+		res.Notes = append(res.Notes, "outcome-unencodable-reported-as-error")
+		dataOK()
 		return
 	}
 	if !ref.OK {
 		if tr.Code == 0 {
 			res.add("stream-bad-request-ok", fmt.Sprintf("msgs=%d,%s", ref.Messages, rep.shape()),
-				fmt.Sprintf("the request stream is malformed/undecodable after %d message(s) (or has the wrong number of messages) but the trailer says OK: %s", ref.Messages, o.short()))
+				fmt.Sprintf("the handler failed (request stream malformed/undecodable after %d message(s), wrong number of messages, or an error asked for) but the trailer says OK: %s", ref.Messages, o.short()))
 			return
 		}
-		if ref.Code != 0 && (tr.Code != ref.Code || tr.Message != "fail" || !anysEqual(tr.Details, ref.Details)) {
+		if ref.Code != 0 && (tr.Code != ref.Code || tr.Message != ref.Msg || !anysEqual(tr.Details, ref.Details)) {
 			res.add("stream-error-status", fmt.Sprintf("want=%d,got=%d", ref.Code, tr.Code),
-				fmt.Sprintf("handler returned code %d \"fail\" with %d details but the trailer says code=%d msg=%q details=%d: %s", ref.Code, len(ref.Details), tr.Code, tr.Message, len(tr.Details), o.short()))
+				fmt.Sprintf("handler returned code %d %q with %d details but the trailer says code=%d msg=%q details=%d: %s", ref.Code, ref.Msg, len(ref.Details), tr.Code, tr.Message, len(tr.Details), o.short()))
+			return
 		}
+		dataOK()
 		return
 	}
 	if tr.Code != 0 {
 		res.add("stream-ok-status", fmt.Sprintf("got=%d", tr.Code), fmt.Sprintf("handler succeeded but the trailer says code=%d msg=%q: %s", tr.Code, tr.Message, o.short()))
 		return
 	}
-	if len(rep.Data) != len(ref.Data) {
-		res.add("stream-ok-data", fmt.Sprintf("want=%d,got=%d", len(ref.Data), len(rep.Data)), "number of data frames differs from the number of messages the handler sent: "+o.short())
-		return
-	}
-	for i, d := range rep.Data {
-		got := new(gt.Message)
-		if err := proto.Unmarshal(d, got); err != nil || !proto.Equal(got, ref.Data[i]) {
-			res.add("stream-ok-data", fmt.Sprintf("frame=%d", i), fmt.Sprintf("data frame %d is not the message the handler sent: %s", i, o.short()))
-			return
-		}
-	}
+	dataOK()
 }
